@@ -414,7 +414,7 @@ def interval_s(draw):
     total = 0
     for u in chosen:
         n = draw(st.integers(0, 99 if u != "y" else 9))
-        txt += "%d%s" % (n, u) if draw(st.booleans()) else "%02d%s" % (n, u)
+        txt += draw(st.sampled_from(["%d%s", "%d%s", "%02d%s", "%03d%s", "%04d%s"])) % (n, u)     # components are decimal however they are padded
         total += n * units[u]
     k = draw(st.integers(0, 2))
     if k == 0 or not txt:
@@ -423,7 +423,7 @@ def interval_s(draw):
         total += h * 3600 + m * 60 + s
     elif k == 1:
         n = draw(st.integers(0, 9999))
-        txt += str(n)
+        txt += str(n) if draw(st.integers(0, 3)) else "0%d" % n
         total += n
     return txt, total
 
@@ -474,7 +474,7 @@ def typed_value_s(draw):
     elif sub == 4:
         t, tot = draw(interval_s())
         exp = str(tot)
-        bad = draw(st.sampled_from(["123z", "1:2:3:", "5x", "1h2q", "pizza"]))
+        bad = draw(st.sampled_from(["123z", "1:2:3:", "5x", "1h2q", "pizza", "0x10", "1h0x2m"]))
     else:
         t, tot = draw(volume_s())
         exp = str(tot)
@@ -655,7 +655,7 @@ def universe_entries_s(draw, depth=1):
             k = draw(st.sampled_from(["s", "s", "s", "l"]))
         if nm == "fl":
             # float settings, including values that differ from each other (and from the default 1.5) by less than 1e-6
-            return [nm, "s", draw(st.sampled_from(["1.5", "2.5", "0.5", "0.5000004", "1.5000001", "1.4999999", "0.0000005", "0", "-0.0000003", "1e3", "bad"]))]
+            return [nm, "s", draw(st.sampled_from(["1.5", "2.5", "0.5", "0.5000004", "1.5000001", "1.4999999", "0.0000005", "0", "-0.0000003", "1e3", "bad", "1e-400", "1e999", "-1e999"]))]
         if nm == "b1":
             return [nm, "s", draw(st.sampled_from(["true", "false", "on", "off", "1", "0", "yes", "no", "maybe"]))]
         if k == "s":
@@ -714,7 +714,7 @@ def c14_s(draw, pid, tier, opts=None):
         how = "bitflip"
     elif k == 2:
         pos = draw(st.integers(0, len(base)))
-        cand = base[:pos] + draw(st.sampled_from(["{", "}", "(", ")", "\"", ",", ";", "\\", "/*", "\x00", "\n", "\"\\", "a b c", "(("])) + base[pos:]
+        cand = base[:pos] + draw(st.sampled_from(["{", "}", "(", ")", "\"", ",", ";", "\\", "/*", "\x00", "\n", "\"\\", "a b c", "((", "\xef\xbb\xbf"])) + base[pos:]
         how = "insert"
     elif k == 3 and base:
         a = draw(st.integers(0, len(base) - 1))
@@ -782,6 +782,9 @@ def c15_s(draw, pid, tier, opts=None):
     regs = draw(st.permutations(list(range(len(UNIVERSE_REG)))))[:nreg]
     points = [draw(st.integers(0, nloads)) for _ in regs]    # registration happens before load #point (nloads = after the last)
     case = {"files": files, "regs": list(regs), "points": points}
+    if draw(st.integers(0, 5)) == 0:
+        # before some of the loads a broken version of the same file is offered first (keys are strings for JSON)
+        case["broken"] = {str(k_): draw(st.booleans()) for k_ in draw(st.lists(st.integers(0, nloads - 1), min_size=1, max_size=2, unique=True))}
     if len(regs) >= 2 and draw(st.integers(0, 4)) == 0:
         # some string settings are registered by the change hook of another registered setting (a module that learns
         # from one setting that it needs another): registration then happens in the middle of a load
@@ -909,6 +912,8 @@ def eval_c15(case, ctx):
     cmds = []
     marks = []     # (index of 'L' response, dump-before idx, dump-after idx, hooks idx)
     hookregs = [tuple(x) for x in case.get("hookregs") or []]
+    broken_before = {int(k_): v_ for k_, v_ in (case.get("broken") or {}).items()}
+    broken_marks = []
     for k in range(nloads + 1):
         here = [regs[j] for j, p in enumerate(case["points"]) if p == k]
         cmds += reg_cmds(here)
@@ -918,6 +923,16 @@ def eval_c15(case, ctx):
                 jp, jn, _, jpar = regs[j]
                 cmds.append("reg_onhook %s %s %s %d %s %d" % ("/".join(hx(lkey(x)) for x in tp + [tn]), "/".join(hx(x) for x in jp) or ".", hx(jn), jpar[0], hx(jpar[1]), hi))
         if k < nloads:
+            if k in broken_before:
+                # a file that breaks off in the middle of a list: must be rejected, change nothing - and leave nothing
+                # behind for the loads that follow
+                btxt = render_simple(files[k])
+                cutp = btxt.find(", ")
+                if cutp < 0:
+                    cutp = btxt.find("( ")
+                btxt = (btxt[:cutp + 2] if cutp >= 0 else btxt + "broken (a, b") + ("\"x" if broken_before[k] else "")
+                cmds += ["dump", "hooks", "load " + write(ctx, "broken%d.conf" % k, btxt), "dump", "hooks"]
+                broken_marks.append((len(cmds) - 3, len(cmds) - 5, len(cmds) - 2, len(cmds) - 1))
             cmds += ["dump", "hooks"]
             i_before = len(cmds) - 2
             cmds += ["load " + paths[k], "dump", "hooks"]
@@ -934,6 +949,14 @@ def eval_c15(case, ctx):
             res.inconclusive = "valid_file_rejected"
             res.violations.append(V("C16", "valid_file_rejected", "conservatively rendered file rejected: %s" % r.responses[iL][0]))
             return res
+    for (iL, iB, iA, iH) in broken_marks:
+        res.classes.add("broken_file_between_loads")
+        if r.responses[iL][0] == "L 0":
+            res.classes.add("broken_file_was_accepted")       # the cut happened to leave a valid file: nothing to say
+            res.inconclusive = "broken_file_accepted"
+            return res
+        if r.responses[iB] != r.responses[iA] or r.responses[iH]:
+            res.violations.append(V("C14", "failed_load_changed_tree", "a rejected file changed the live tree or ran hooks"))
     final, problems = parse_dump(r.responses[-1])
     if problems:
         res.violations.append(V("C15", "tree_corrupt", "; ".join(problems[:2])))
@@ -1138,7 +1161,7 @@ def run_enum(tier, root, out):
     out["nontrivial"] += kinds.get("rejected", 0)
     for k, v in kinds.items():
         out["classes"]["crashpoint_" + k] = v
-    out["exhaustive_scope"] = ("every byte prefix, single-bit flip, single-byte deletion and insertion of each of 16 grammar tokens at every "
+    out["exhaustive_scope"] = ("every byte prefix, single-bit flip, single-byte deletion and insertion of each of 17 tokens (grammar tokens and a UTF-8 byte order mark) at every "
                                "position of %d corpus files (%d bytes) x 4 prior states: %d candidates%s" %
                                (len(paths), total, n, "" if ok else " (stopped at a failure)"))
 
